@@ -312,6 +312,7 @@ SPECS["C11"] = dict(
     jobs=[
         rapid("TestC11Isolation", 250, 8000, sq=4, st=16),
         plain("TestC11KnownStaleFEC", sq=1, st=1),
+        rapid("TestC11Backlog", 10, 150, sq=2, st=8),
     ],
 )
 
